@@ -62,6 +62,12 @@ func (lv LiteralValue) CompletionAtPos(ctx context.Context, pos hcl.Pos) []lang.
 		editRange.End = pos
 	}
 
+	if editRange.Start.Byte > pos.Byte {
+		// the position is before the expression
+		// (e.g. right after the equals sign)
+		editRange.Start = pos
+	}
+
 	cd := lv.cons.EmptyCompletionData(ctx, 1, 0)
 	return []lang.Candidate{
 		{
